@@ -29,7 +29,8 @@ class C16(Check):
         for kind in ("up", "down"):
             for sub in (3, None):
                 for mbx in (24, 32, 128):
-                    for n in (0, 1, 4, 5, mbx - 17, mbx - 16, mbx - 15, mbx - 9, 2 * mbx, 2 * mbx - 25 + 7):
+                    for n in (0, 1, 4, 5, mbx - 17, mbx - 16, mbx - 15, mbx - 9, 2 * mbx, 2 * mbx - 26, 2 * mbx - 25, 2 * mbx - 24,
+                              3 * mbx - 34, 3 * mbx - 35, 4 * mbx - 43, 2 * mbx - 25 - 7, 2 * mbx - 25 - 6):
                         out.append({"kind": kind, "n": max(n, 0), "mbx": mbx, "sub": sub, "delay": 0, "unrelated": 0, "seed": n})
         return out
 
@@ -45,7 +46,7 @@ class C16(Check):
                 n = rng.randint(max(0, mbx - 20), mbx + 4)
             else:
                 k = rng.randint(1, 4)       # around k further segments
-                n = max(0, (mbx - 16) + k * (mbx - 9) + rng.randint(-8, 8))
+                n = max(0, (mbx - 16) + k * (mbx - 9) + rng.choice([0, 0, 0, -1, 1, -7, -6, rng.randint(-8, 8)]))
             kind = rng.choice(["up", "down"])
             out.append({"kind": kind, "n": n, "mbx": mbx, "sub": rng.choice([None, 0, 1, 7, 255]), "delay": rng.choice([0, 0, 1, 3]),
                         "unrelated": rng.choice([0, 0, 0, 1, 2]) if kind == "up" else 0, "seed": rng.randrange(1 << 30)})
